@@ -473,6 +473,10 @@ impl StorageEngine {
                 total_memory_to_free += self.calculate_value_size(key, &stored_value.value);
             }
             
+            // every key that disappears counts as modified for WATCH
+            for key in shard_guard.data.keys() {
+                shard_guard.mark_modified(key);
+            }
             shard_guard.data.clear();
             shard_guard.expiring_keys.clear();
         }
